@@ -17,6 +17,8 @@ CLAIMED['C11'] = dict(text='Solver verdict over all 21-constant stiffness matric
              note='Real arithmetic; np.linalg.inv(6x6) is a contract stub (X.C = C.X = I, symmetric, functional, inverse-of-inverse); dead-zone assumption for near-zero thresholds; transform threshold handled by a threshold lemma.', ref='§5 C11')
 CLAIMED['C03'] = dict(text='nlist.pyx re-translated from source and executed on symbolic atom coordinates (2 atoms quick, 3 thorough) in a table of concrete (cell, cutoff, pbc) entries: bin indices, ghost membership and the cutoff comparison fork, so each explored path is a whole region of configuration space on which the list is decided against the symbolic C02 periodic distance (listed <=> distance < cutoff), plus symmetry/order/coord and dump->load. Sub-boxes whose work-list is exhausted are decided completely; the rest is reported as unexplored. Translator validated against the freshly compiled extension (random systems, storage sizes, 45 atoms per bin).',
              note='Concrete cells and cutoffs from a table; N<=3; real arithmetic at bin edges; regions left unexplored within the time budget are counted in the evidence (worklist_remaining).', ref='§5 C03')
+CLAIMED['C16'] = dict(text='Solver verdict: 3<->4 index maps are mutually inverse for ALL real indices (leading shapes (), (2,), (2,2); list and array); [uvtw] equals u a1+v a2+t a3+w c in every hexagonal cell; the Cartesian normal of every integer plane with |index|<=2 (quick; <=4 thorough) is the unit vector along h a*+k b*+l c* with the right sense on EVERY LAMMPS-form cell (6 symbolic parameters), 4-index planes on every hexagonal cell; centring maps mutually inverse on real indices for 8 settings; family constructors with generic symbolic parameters are identified as their family (through arccos anchor axioms). reduce_indices, fromstring and the centring determinants are exhaustive concrete enumerations inside the bound.',
+             note='Real arithmetic; arccos facts L1 trusted; family identification obligations may remain inconclusive (approximate paths) for rhombohedral/triclinic within the quick time-out; enumeration parts are not solver verdicts and are labelled so in the evidence.', ref='§5 C16')
 NA = {}
 props = [json.loads(l) for l in open(os.path.join(V, 'properties.jsonl'))]
 checks = []; na = []
